@@ -13,9 +13,10 @@ Stream `plan` (C09): the logical optimizer as a plan-to-plan function. Stateless
 
 `spec` of a rewrite line is `-` when the soundness theorem of Props/C09 applies to the plan
 (`wfPush`, all columns known) or the rewrite changed nothing; otherwise the only output the law
-covers is the unchanged plan, and the signature names the residual condition that fails — what the
-repaired guards still cannot see: `outVars` over- or under-reporting the columns of an `Expand` input
-or a join side, a generated column name that coincides with a variable, a `*` item.
+covers is the unchanged plan, and the signature names the residual condition that fails:
+`join-underreport` (pushed into the right input although the left input has an unreported column of
+that name), `join-duplicate-column` (the mirror image, sound in the first-occurrence model, not on
+the planner, which reads the last column of a name), `star-item`, `unknown-columns`.
 -/
 namespace Grafeo.DriverPlan
 open Grafeo.Proto Grafeo.Plan
@@ -268,20 +269,20 @@ def unknownCols : Plan → Bool
 def whyNot (pred : Expr) : Plan → Option String
   | .project items i =>
     if pred.vars.all (passesThrough items) then
-      if !pred.vars.all (passThrough items (cols i)) then some "project-names" else whyNot pred i
+      if !pred.vars.all (passThrough items (cols i)) then some "star-item" else whyNot pred i
     else none
   | .ret _ items i =>
     if pred.vars.all (passesThrough items) then
-      if !pred.vars.all (passThrough items (cols i)) then some "return-names" else whyNot pred i
+      if !pred.vars.all (passThrough items (cols i)) then some "star-item" else whyNot pred i
     else none
   | .expand s i =>
     if allIn pred.vars (outVars i) then
-      if !pred.vars.all (fun v => (cols i).contains v || !(expandCols s).contains v) then some "expand-overreport"
+      if !pred.vars.all (fun v => (cols i).contains v || !(expandCols s).contains v) then some "overreport-proved-impossible"
       else whyNot pred i
     else none
   | .join ty _ l r =>
     if pushesLeft pred ty l r then
-      if !pred.vars.all (fun v => (cols l).contains v || !(cols r).contains v) then some "join-overreport"
+      if !pred.vars.all (fun v => (cols l).contains v || !(cols r).contains v) then some "overreport-proved-impossible"
       else whyNot pred l
     else if pushesRight pred ty l r then
       if !pred.vars.all (fun v => !(cols l).contains v) then some "join-underreport"
@@ -307,12 +308,40 @@ def whyPlan : Plan → Option String
   | .agg _ _ _ i => whyPlan i
   | _ => none
 
-/-- `none` when the soundness theorem covers this rewrite -/
+/-- The model resolves a column name bound twice to its first occurrence; the planner does not do
+so consistently (filter, project and return take the last one). A predicate pushed into a join's
+left input although the right input has a column of the same name is therefore outside what the
+model can vouch for, even where `wfPush` holds. Naming only. -/
+def dupWhy (pred : Expr) : Plan → Option String
+  | .project items i => if pred.vars.all (passesThrough items) then dupWhy pred i else none
+  | .ret _ items i => if pred.vars.all (passesThrough items) then dupWhy pred i else none
+  | .expand _ i => if allIn pred.vars (outVars i) then dupWhy pred i else none
+  | .join ty _ l r =>
+    if pushesLeft pred ty l r then
+      if pred.vars.any (fun v => (cols r).contains v) then some "join-duplicate-column" else dupWhy pred l
+    else if pushesRight pred ty l r then dupWhy pred r
+    else none
+  | _ => none
+
+def dupPlan : Plan → Option String
+  | .filter pred i => firstSome [dupPlan i, if containsSubquery pred then none else dupWhy pred (pushFilters i)]
+  | .ret _ _ i => dupPlan i
+  | .project _ i => dupPlan i
+  | .limit _ i => dupPlan i
+  | .skip _ i => dupPlan i
+  | .sort _ i => dupPlan i
+  | .distinct _ i => dupPlan i
+  | .expand _ i => dupPlan i
+  | .join _ _ l r => firstSome [dupPlan l, dupPlan r]
+  | .agg _ _ _ i => dupPlan i
+  | _ => none
+
+/-- `none` when the soundness theorem covers this rewrite (and no duplicate column is involved) -/
 def pushVerdict (p : Plan) : Option String :=
   if pushFilters p == p then none
   else if !wfPush p then some ((whyPlan p).getD "side-condition")
   else if unknownCols p then some "unknown-columns"
-  else none
+  else dupPlan p
 
 /-! ### graphs and rows -/
 
